@@ -64,7 +64,7 @@ Proof. intros [L _] Hl. unfold live in *. lia. Qed.
 Lemma fext_skids s s' b : fext s s' -> live s b -> skids s' b = skids s b.
 Proof. intros [_ F] Hl. unfold skids, kids, kids_wf. rewrite (F b Hl). reflexivity. Qed.
 Lemma kid_live s a k : Rank s -> live s a -> In k (skids s a) -> live s k.
-Proof. intros HK Hl Hk. apply HK in Hk. unfold live in *. lia. Qed.
+Proof. intros HK _ Hk. eapply rank_kid_live; eassumption. Qed.
 
 Lemma reach_fext_back s s' a x : fext s s' -> Rank s -> live s a -> reach s' a x -> reach s a x.
 Proof.
@@ -78,8 +78,6 @@ Proof.
   eapply reach_step; [rewrite (fext_skids _ _ _ FE Hl); exact Hk|].
   apply IH. eapply kid_live; eassumption.
 Qed.
-Lemma reach_live s a x : Rank s -> live s a -> reach s a x -> live s x.
-Proof. intros HK Hl Hr. apply (reach_le _ _ _ HK) in Hr. unfold live in *. lia. Qed.
 Lemma tree_shaped_fext s s' a : fext s s' -> Rank s -> live s a -> tree_shaped s a -> tree_shaped s' a.
 Proof.
   intros FE HK Hl HT d Hd. apply (reach_fext_back _ _ _ _ FE HK Hl) in Hd.
@@ -135,7 +133,8 @@ Proof.
   intros [F1 [N1 D1]] EX HK1 HK' Hlo [F2 [N2 D2]].
   assert (FE := proj1 EX).
   assert (Hlt1 : forall k x, In k L1 -> reach s' k x -> x < List.length (heap s1)).
-  { intros k x Hk Hr. destruct (F1 k Hk) as [_ [Hl _]]. apply (reach_le _ _ _ HK') in Hr. unfold live in Hl. lia. }
+  { intros k x Hk Hr. destruct (F1 k Hk) as [_ [Hl _]]. apply (reach_fext_back _ _ _ _ FE HK1 Hl) in Hr.
+    exact (reach_live _ _ _ HK1 Hl Hr). }
   assert (Hge2 : forall k x, In k L2 -> reach s' k x -> List.length (heap s1) <= x).
   { intros k x Hk Hr. destruct (F2 k Hk) as [_ [_ [_ [Hb _]]]]. apply Hb; exact Hr. }
   split; [|split].
